@@ -15,6 +15,12 @@ type Body struct {
 	inTree
 
 	items nodeSet
+
+	// singleLineBlock is set by the parser for the body of a block that was
+	// written in the single-line form (foo { a = 1 } or foo {}). Such a block
+	// has no newline after its opening brace, so it must be converted to the
+	// multi-line form before another item can be appended to its body.
+	singleLineBlock *Block
 }
 
 func newBody() *Body {
@@ -25,6 +31,7 @@ func newBody() *Body {
 }
 
 func (b *Body) appendItem(c nodeContent) *node {
+	b.leaveSingleLineForm()
 	b.ensureLineEnd()
 	nn := b.children.Append(c)
 	b.items.Add(nn)
@@ -70,7 +77,18 @@ func (b *Body) Clear() {
 }
 
 func (b *Body) AppendUnstructuredTokens(ts Tokens) {
+	b.leaveSingleLineForm()
 	b.children.Append(ts)
+}
+
+// leaveSingleLineForm must be called before anything is appended to the body:
+// if the body belongs to a block written in the single-line form, that block
+// is first converted to the multi-line form.
+func (b *Body) leaveSingleLineForm() {
+	if b.singleLineBlock != nil {
+		b.singleLineBlock.makeMultiLine()
+		b.singleLineBlock = nil
+	}
 }
 
 // Attributes returns a new map of all of the attributes in the body, with
